@@ -147,6 +147,45 @@ theorem unview_vectorsAlong {α : Type} {A F B : Nat} {data : List α} {vs : Lis
     · rw [List.getElem?_eq_none (by simpa using hk), List.getElem?_eq_none (by simpa [hlen] using hk)]
   rw [this, allSome_map_some]
 
+/-- `unview` places entry `i` of vector `a*B + b` at flat index `(a*F + i)*B + b` -/
+theorem unview_spec {α : Type} {A F B : Nat} {ys : List (List α)} {d : List α}
+    (h : unview A F B ys = some d) {a i b : Nat} (ha : a < A) (hi : i < F) (hb : b < B) :
+    ∃ v x, ys[a * B + b]? = some v ∧ v[i]? = some x ∧ d[(a * F + i) * B + b]? = some x := by
+  unfold unview at h
+  obtain ⟨_, hget⟩ := allSome_range_get h
+  obtain ⟨x, hx, hd⟩ := hget _ (flat_lt ha hi hb)
+  have h1 : ((a * F + i) * B + b) / (F * B) = a := by
+    rw [Nat.mul_comm F B, ← Nat.div_div_eq_div_mul, idx_div hb, idx_div hi]
+  have h2 : ((a * F + i) * B + b) % B = b := idx_mod hb
+  have h3 : ((a * F + i) * B + b) / B % F = i := by rw [idx_div hb, idx_mod hi]
+  unfold unviewAt at hx
+  rw [h1, h2, h3] at hx
+  cases hv : ys[a * B + b]? with
+  | none => rw [hv] at hx; cases hx
+  | some v => rw [hv] at hx; exact ⟨v, x, rfl, hx, hd⟩
+
+/-- what a successful `Tensor.view` returns -/
+theorem view_spec {α : Type} {t : Tensor α} {axis : Int} {w : View α} (h : t.view axis = .ok w) :
+    ∃ ax, normAxis t.shape.length axis = .ok ax ∧ t.shape[ax]? = some w.F ∧
+      w.A = prodNat (t.shape.take ax) ∧ w.B = prodNat (t.shape.drop (ax + 1)) ∧
+      t.data.length = w.A * w.F * w.B ∧ vectorsAlong w.A w.F w.B t.data = some w.vecs := by
+  unfold Tensor.view at h
+  split at h
+  · cases h
+  · rename_i ax hax
+    split at h
+    · cases h
+    · rename_i F hF
+      simp only at h
+      split at h
+      · cases h
+      · rename_i hlen
+        split at h
+        · cases h
+        · rename_i vs hvs
+          cases h
+          exact ⟨ax, hax, hF, rfl, rfl, by simpa using hlen, hvs⟩
+
 /-! ## row-major multi-indices -/
 
 /-- row-major (C order) flat index of a multi-index -/
